@@ -244,16 +244,24 @@ def sanitizer_reports(text, case_id=None):
     import re as _re
     out = []
     def frames(block):
+        """in-repo frames of a report, innermost first: 'function @ file' (ASan/TSan/Miri) or 'function' (memcheck prints base names only)"""
         fr = []
-        for m in _re.finditer(r"(?:#\d+ 0x[0-9a-f]+ in |\s+(?:at|by) 0x[0-9A-F]+: )(\S+)(?: .*?/repo/crates/([^\s:)]+))?", block):
-            fn = m.group(1)
-            if m.group(2):
-                fr.append(fn.split("::h")[0] + " @ " + m.group(2))
-        if not fr:
-            for m in _re.finditer(r"--> /repo/crates/([^\s:]+):(\d+)", block):
-                fr.append(m.group(1))
-            for m in _re.finditer(r"inside `([^`]+)` at /repo/crates/([^\s:]+)", block):
-                fr.append(m.group(1) + " @ " + m.group(2))
+        for line in block.splitlines():
+            m = (_re.search(r"#\d+ 0x[0-9a-f]+ in (\S+)(?: (\S+))?", line)                     # ASan:  #0 0x55.. in func /path/file.rs:1:2
+                 or _re.search(r"#\d+ (\S+) (/\S+):\d+", line)                                  # TSan:  #0 func /path/file.rs:12 (mod+0x..)
+                 or _re.search(r"(?:at|by) 0x[0-9A-Fa-f]+: (\S+) \(([^)]*)\)", line)                # memcheck: at 0x..: func (file.rs:12)
+                 or _re.search(r"inside `([^`]+)` at (/\S+?):\d+", line))                        # Miri backtrace
+            if not m:
+                m2 = _re.search(r"--> (/repo/crates/[^\s:]+):\d+", line)                         # Miri primary span
+                if m2:
+                    fr.append(m2.group(1).split("/repo/crates/", 1)[1])
+                continue
+            fn, where = m.group(1), (m.group(2) or "")
+            fn = _re.sub(r"::h[0-9a-f]{16}$", "", fn)
+            if "/repo/crates/" in where:
+                fr.append(fn + " @ " + where.split("/repo/crates/", 1)[1].split(":")[0])
+            elif "glaredb" in fn or "vdrive" in fn:
+                fr.append(fn)
         return fr[:6]
     for m in _re.finditer(r"==\d+==ERROR: AddressSanitizer: (\S+).*?(?:SUMMARY: AddressSanitizer[^\n]*|\Z)", text, _re.S):
         out.append({"tool": "asan", "kind": m.group(1), "frames": frames(m.group(0)), "text": m.group(0)[:3000], "case": case_id})
